@@ -961,11 +961,16 @@ func (c *Client) doClose() {
 			header["Require"] = base.HeaderValue{"www.onvif.org/ver20/backchannel"}
 		}
 
+		// this TEARDOWN is a courtesy: when it fails, reset() must be able to go on with a new connection
+		mustClose := c.mustClose
+
 		c.do(&base.Request{ //nolint:errcheck
 			Method: base.Teardown,
 			URL:    c.baseURL,
 			Header: header,
 		}, true)
+
+		c.mustClose = mustClose
 	}
 
 	if c.reader != nil {
